@@ -71,11 +71,15 @@ Definition fresh (p : port) : port := with_value (with_attrs p (p_init p)) JNull
 Definition get_attr (p : port) (n : string) : option jv := lookup n (p_attrs p).
 Definition is_expr_attr (n : string) : bool := (n =? "expression") || (n =? "transform_read") || (n =? "transform_write").
 Definition persisted (p : port) : bool := match get_attr p "persisted" with Some (JBool true) => true | _ => false end.
+Definition enabled_attr (p : port) : bool := match get_attr p "enabled" with Some (JBool true) => true | _ => false end.
 Definition reserved (n : string) : bool := (n =? "id") || (n =? "value") || (n =? "pending_value").
 Definition find_def (p : port) (n : string) : option attrdef := find (fun d => ad_name d =? n) (p_defs p).
 (* names that load_from_data will hand to set_attr *)
 Definition loadable (p : port) (n : string) : bool :=
   negb (reserved n) && match find_def p n with Some d => negb (ad_nonpersisted d) | None => false end.
+(* ... and that prepare_for_save writes: what survives a save + load *)
+Definition restorable (p : port) (n : string) : bool :=
+  loadable p n && match find_def p n with Some d => ad_modifiable d | None => false end.
 Definition modifiable_names (p : port) : list string := map ad_name (filter ad_modifiable (p_defs p)).
 
 Section Model.
@@ -117,6 +121,10 @@ Section Model.
     if loadable p (fst kv) then set_attr p (fst kv) (snd kv) else p.
 
   Definition tw_text (p : port) : string := match get_attr p "transform_write" with Some (JStr s) => s | _ => "" end.
+  (* the value handed to the driver: through the write transform and the type coercion; the transform of a disabled port
+     cannot read the port's own value (DisabledPort), which — like an unavailable value — gives "no value" *)
+  Definition through_tw (boolean integer : bool) (text : string) (en : bool) (v : jv) : jv :=
+    if (text =? "") || en then eval_tw boolean integer text v else JNull.
 
   Definition load_from_data (p0 : port) (data : record) : port * list jv :=
     let p1 := fold_left load_step (ordered data) p0 in
@@ -125,13 +133,13 @@ Section Model.
     | Some v =>
         if persisted p1 && negb (is_null v)
         then (with_value p1 v hlt,
-              if p_writable p1 then [eval_tw (p_boolean p1) (p_integer p1) (tw_text p1) v] else [])
+              if p_writable p1 then [through_tw (p_boolean p1) (p_integer p1) (tw_text p1) (enabled_attr p1) v] else [])
         else (with_value p1 JNull hlt, [])                   (* a fresh driver has nothing to read *)
     | None => (with_value p1 JNull hlt, [])
     end.
 
   (* what must survive: every attribute load_from_data restores, the value of a persisted port, the history timestamp *)
-  Definition loadable_names (p : port) : list string := filter (loadable p) (map fst (p_init p)).
+  Definition loadable_names (p : port) : list string := filter (restorable p) (map fst (p_init p)).
   Definition view (p : port) : list (string * option jv) * jv * Z :=
     (map (fun n => (n, get_attr p n)) (loadable_names p), if persisted p then p_value p else JNull, p_hlt p).
 
@@ -141,10 +149,11 @@ Section Model.
     wf_skeleton : map fst (p_attrs p) = map fst (p_init p);
     wf_nodup : NoDup (map fst (p_attrs p));
     wf_defs_nodup : NoDup (map ad_name (p_defs p));
-    wf_defs_not_reserved : forall d, In d (p_defs p) -> reserved (ad_name d) = false /\ ad_name d <> "history_last_timestamp";
-    wf_loadable_modifiable : forall d, In d (p_defs p) -> ad_nonpersisted d = false -> ad_modifiable d = true;
+    wf_defs_not_reserved : forall d, In d (p_defs p) -> ad_modifiable d = true ->
+                           reserved (ad_name d) = false /\ ad_name d <> "history_last_timestamp";
+    wf_not_null : forall n v, In (n, v) (p_attrs p) -> is_null v = false;
     wf_texts : forall n v, In (n, v) (p_attrs p) -> is_expr_attr n = true -> canonical_text v;
-    wf_persisted_loadable : loadable p "persisted" = true;
+    wf_persisted_loadable : restorable p "persisted" = true;
     wf_persisted_supported : get_attr p "persisted" <> None;
   }.
 End Model.
